@@ -1,7 +1,7 @@
 (* C03 — mask: exact residual signature after n positionals and named arguments. *)
 From Sigtools.Model Require Import Base Bind Roles Algebra.
 From Sigtools.Model Require Import Universe.
-From Sigtools.Proofs Require Import SmallModel Basics Deciders SweepDefs SweepDefs2 Bounded2 MaskLaws MaskExact SweepDefs3 Bounded3 MaskNamesLib MaskNames MaskAlgebra MaskNamesProps MaskHide.
+From Sigtools.Proofs Require Import SmallModel Basics Deciders SweepDefs SweepDefs2 Bounded2 MaskLaws MaskExact SweepDefs3 Bounded3 MaskNamesLib MaskNames MaskAlgebra MaskNamesProps MaskHide MaskHideExact.
 
 Theorem C03_wf s n names0 h r : mask s n names0 h = Ok r -> validate (params r) = true.
 Proof. exact (mask_wf s n names0 h r). Qed.
@@ -124,4 +124,19 @@ Print Assumptions C03_mask_hide_sound.
 Theorem C03_mask_hide_shape : forall (s : sigT) (n : nat) (names0 : list name) (h : hideflags) (r : sigT), valid_sig (params s) = true -> mask s n names0 h = Ok r -> if h_kwargs h then params r = MaskNamesLib.blk (hide_pos s n h) [] (hide_va s h) [] None else exists kwo_f : list param, params r = MaskNamesLib.blk (hide_pos s n h) (MaskAlgebra.takew (MaskAlgebra.nh names0) (hide_pok s n h)) (MaskAlgebra.va_form names0 (hide_pok s n h) (hide_va s h)) kwo_f (hide_vk s h) /\ Permutation.Permutation kwo_f (MaskAlgebra.kwo_form names0 (hide_pok s n h) (kwoargs (sort_params s))).
 Proof. exact @MaskHide.mask_hide_shape. Qed.
 Print Assumptions C03_mask_hide_shape.
+
+
+(* ---- exactness under hide flags: the plain converse is false for each flag (a hidden class cannot be used by the
+   visible call); the exact equation that holds (Proofs/MaskHideExact.v) ---- *)
+Theorem C03_mask_hide_exact_partial : forall (s : sigT) (n : nat) (names0 : list name) (h : hideflags) (r : sigT), valid_sig (params s) = true -> NoDup names0 -> h_kwargs h = false -> mask s n names0 h = Ok r -> forall c : call, disjointb (kws c) names0 = true -> noncolliding c (params r) [params s] = true -> accepts (params r) c = hide_rhs s r n names0 h c.
+Proof. exact @MaskHideExact.mask_hide_exact_partial. Qed.
+Print Assumptions C03_mask_hide_exact_partial.
+
+Theorem C03_mask_hide_kwargs_exact : forall (s : sigT) (n : nat) (names0 : list name) (h : hideflags) (r : sigT), valid_sig (params s) = true -> h_kwargs h = true -> mask s n names0 h = Ok r -> forall c : call, accepts (params r) c = true <-> kws c = [] /\ ((npos c <= length (MaskHide.hide_pos s n h))%nat \/ isSome (MaskHide.hide_va s h) = true) /\ req_pos (MaskHide.hide_pos s n h) (npos c) [] = true.
+Proof. exact @MaskHideExact.mask_hide_kwargs_exact. Qed.
+Print Assumptions C03_mask_hide_kwargs_exact.
+
+Theorem C03_mask_hide_exact_refuted : exists h : hideflags, converse_fails h.
+Proof. exact @MaskHideExact.mask_hide_exact_refuted. Qed.
+Print Assumptions C03_mask_hide_exact_refuted.
 
